@@ -594,6 +594,12 @@ class FpPoint:
 
     def symval(self, name: str) -> int:
         v = self.assign.get(name)
+        if v is None and name == "I":
+            v = _sqrt_mod(self.p - 1, self.p)
+            if v is None:
+                raise Undecidable("imaginary unit needs a prime = 1 mod 4")
+            v = min(v, self.p - v)
+            self.assign[name] = v
         if v is None:
             v = self._h("sym", name)
             if v == 0:
@@ -611,8 +617,8 @@ class FpPoint:
             u = vals[0]
             if u == 0:
                 return 0
-            r = pow(u, (p + 1) // 4, p)
-            if r * r % p != u:
+            r = _sqrt_mod(u, p)
+            if r is None:
                 raise NonResidue("sqrt")
             return min(r, p - r)
         if name == "cbrt":
@@ -683,7 +689,40 @@ class FpPoint:
         return memo[n.id]
 
 
+P_COMPLEX = 2305843009213694017  # prime = 1 mod 12: sqrt(-1) and sqrt(3) exist
+
+
+def _sqrt_mod(u: int, p: int):
+    """Tonelli-Shanks; None when u is a non-residue."""
+    u %= p
+    if u == 0:
+        return 0
+    if pow(u, (p - 1) // 2, p) != 1:
+        return None
+    if p % 4 == 3:
+        return pow(u, (p + 1) // 4, p)
+    q, s = p - 1, 0
+    while q % 2 == 0:
+        q //= 2
+        s += 1
+    z = 2
+    while pow(z, (p - 1) // 2, p) != p - 1:
+        z += 1
+    m, c, t, r = s, pow(z, q, p), pow(u, q, p), pow(u, (q + 1) // 2, p)
+    while t != 1:
+        i, t2 = 0, t
+        while t2 != 1:
+            t2 = t2 * t2 % p
+            i += 1
+        b = pow(c, 1 << (m - i - 1), p)
+        m, c = i, b * b % p
+        t, r = t * c % p, r * b % p
+    return r
+
+
 def _cbrt_mod(u: int, p: int):
+    if p % 3 == 2:
+        return pow(u, (2 * p - 1) // 3, p)
     # p - 1 divisible by 9 for 2^61-1 (p-1 = 2*3^2*...): generic cube root via exponent when unique
     # is not available; use the Adleman-Manders-Miller shortcut through brute exponent trick:
     # if u^((p-1)/3) != 1 there is no cube root.
@@ -711,6 +750,8 @@ def _cbrt_mod(u: int, p: int):
     # correction: find t with (u^m)^l = cp^(3 t'), brute force over 3^s elements (s small: 2)
     b = pow(pow(u, m, p), l, p)  # want y with y^3 = b, y in Sylow group; then root = x / y
     order = 3 ** s
+    if order > 100000:
+        raise Undecidable("3-Sylow subgroup too large for brute-force cube root")
     g = cp
     y = None
     gi = 1
@@ -730,13 +771,18 @@ def _cbrt_mod(u: int, p: int):
 def is_zero_fp(nodes, seed: int = 0, k: int = 3, assign_hook=None):
     """Decide  all(n == 0)  by random interpretation.  Returns (True, info) or (False, witness)."""
     nodes = [tonode(n) for n in nodes]
+    prime = P
+    for n in nodes:
+        if "I" in symbols(n):
+            prime = P_COMPLEX
+            break
     done = 0
     tries = 0
     while done < k:
         tries += 1
         if tries > 400:
             raise Undecidable("too many non-residue resamples")
-        pt = FpPoint(seed * 1000003 + tries)
+        pt = FpPoint(seed * 1000003 + tries, p=prime)
         if assign_hook:
             assign_hook(pt)
         try:
@@ -749,7 +795,7 @@ def is_zero_fp(nodes, seed: int = 0, k: int = 3, assign_hook=None):
             if v != 0:
                 return False, {"index": i, "point_seed": pt.seed, "assign": dict(list(pt.assign.items())[:12])}
         done += 1
-    return True, {"points": k, "prime": "2^61-1", "resamples": tries - k}
+    return True, {"points": k, "prime": prime, "resamples": tries - k}
 
 
 def equal_fp(a, b, seed: int = 0, k: int = 3):
@@ -846,6 +892,73 @@ def eval_fraction(n, env: dict, fnenv: dict | None = None) -> Fraction:
             r = c0
             for t, c in ts:
                 r += c * go(t)
+        memo[x.id] = r
+        return r
+
+    return go(n)
+
+
+# -- symbolic differentiation -----------------------------------------------
+
+
+def diff(n, var: str, assume_real_identity: bool = True, memo=None) -> Node:
+    """d n / d var on the DAG.  Atoms: log, exp, sqrt, cbrt, atan, sin, cos; Re/conj pass through
+    when assume_real_identity; any other atom depending on var is refused."""
+    memo = {} if memo is None else memo
+    n = tonode(n)
+
+    def go(x: Node) -> Node:
+        r = memo.get(x.id)
+        if r is not None:
+            return r
+        if x.op == "const":
+            r = ZERO
+        elif x.op == "sym":
+            r = ONE if x.payload == var else ZERO
+        elif x.op == "add":
+            c0, ts = x.payload
+            r = addn([_scale(c, go(t)) for t, c in ts])
+        elif x.op == "mul":
+            c, fs = x.payload
+            terms = []
+            for f, e in fs:
+                df = go(f)
+                if df.op == "const" and df.payload == 0:
+                    continue
+                # d(f^e) * rest = e * df / f * x
+                terms.append(mul(mul(const(e), df), div(x, f)))
+            r = addn(terms) if terms else ZERO
+        elif x.op == "fn":
+            name, args = x.payload
+            das = [go(a) for a in args]
+            if all(d.op == "const" and d.payload == 0 for d in das):
+                r = ZERO
+            elif len(args) == 1:
+                u, du = args[0], das[0]
+                if name == "log":
+                    r = div(du, u)
+                elif name == "exp":
+                    r = mul(du, x)
+                elif name == "sqrt":
+                    r = div(du, mul(2, x))
+                elif name == "cbrt":
+                    r = div(du, mul(3, mul(x, x)))
+                elif name == "atan":
+                    r = div(du, add(1, mul(u, u)))
+                elif name == "atanh":
+                    r = div(du, sub(1, mul(u, u)))
+                elif name == "sin":
+                    r = mul(du, fn("cos", u))
+                elif name == "cos":
+                    r = neg(mul(du, fn("sin", u)))
+                elif name in ("Re", "conj") and assume_real_identity:
+                    r = du
+                else:
+                    raise Undecidable(f"derivative of atom {name}")
+            else:
+                raise Undecidable(f"derivative of atom {name}/{len(args)}")
+        else:
+            raise ValueError(x.op)
         memo[x.id] = r
         return r
 
